@@ -2,30 +2,36 @@
 package registry
 
 import (
+	"verifh/hfmt"
 	"verifh/hlex"
 	"verifh/hparse"
 	"verifh/hval"
 )
 
 var Harnesses = map[string]func(){
-	"verifh/hlex.Total":               hlex.Total,
-	"verifh/hlex.StepTotal":           hlex.StepTotal,
-	"verifh/hlex.StepRef":             hlex.StepRef,
-	"verifh/hparse.QueryRef":          hparse.QueryRef,
-	"verifh/hparse.QueryTotal":        hparse.QueryTotal,
-	"verifh/hparse.QueryLimit":        hparse.QueryLimit,
-	"verifh/hparse.SchemaRef":         hparse.SchemaRef,
-	"verifh/hparse.SchemaTotal":       hparse.SchemaTotal,
-	"verifh/hparse.SchemaLimit":       hparse.SchemaLimit,
-	"verifh/hval.Smoke":               hval.Smoke,
-	"verifh/hval.ValidateRef":         hval.ValidateRef,
-	"verifh/hval.TypeCompat":          hval.TypeCompat,
-	"verifh/hval.Links":               hval.Links,
-	"verifh/hval.Compose":             hval.Compose,
-	"verifh/hval.Deterministic":       hval.Deterministic,
-	"verifh/hval.SchemaReadOnly":      hval.SchemaReadOnly,
-	"verifh/hval.SchemaLoadRef":       hval.SchemaLoadRef,
-	"verifh/hval.SchemaOrder":         hval.SchemaOrder,
-	"verifh/hval.SplitGapSelfTest":    hval.SplitGapSelfTest,
-	"verifh/hval.FrozenWriteSelfTest": hval.FrozenWriteSelfTest,
+	"verifh/hlex.Total":                hlex.Total,
+	"verifh/hlex.StepTotal":            hlex.StepTotal,
+	"verifh/hlex.StepRef":              hlex.StepRef,
+	"verifh/hparse.QueryRef":           hparse.QueryRef,
+	"verifh/hparse.QueryTotal":         hparse.QueryTotal,
+	"verifh/hparse.QueryLimit":         hparse.QueryLimit,
+	"verifh/hparse.SchemaRef":          hparse.SchemaRef,
+	"verifh/hparse.SchemaTotal":        hparse.SchemaTotal,
+	"verifh/hparse.SchemaLimit":        hparse.SchemaLimit,
+	"verifh/hval.Smoke":                hval.Smoke,
+	"verifh/hval.ValidateRef":          hval.ValidateRef,
+	"verifh/hval.TypeCompat":           hval.TypeCompat,
+	"verifh/hval.Links":                hval.Links,
+	"verifh/hval.Compose":              hval.Compose,
+	"verifh/hval.Deterministic":        hval.Deterministic,
+	"verifh/hval.SchemaReadOnly":       hval.SchemaReadOnly,
+	"verifh/hval.SchemaLoadRef":        hval.SchemaLoadRef,
+	"verifh/hval.SchemaOrder":          hval.SchemaOrder,
+	"verifh/hval.ArgMap":               hval.ArgMap,
+	"verifh/hval.VarCoerce":            hval.VarCoerce,
+	"verifh/hval.ReflectModelSelfTest": hval.ReflectModelSelfTest,
+	"verifh/hfmt.StringValue":          hfmt.StringValue,
+	"verifh/hfmt.Description":          hfmt.Description,
+	"verifh/hval.SplitGapSelfTest":     hval.SplitGapSelfTest,
+	"verifh/hval.FrozenWriteSelfTest":  hval.FrozenWriteSelfTest,
 }
